@@ -1,10 +1,10 @@
 SPECIFICATION Spec
 CONSTANTS
-  MaxGroups = 1
+  MaxGroups = 0
   MaxObjects = 1
   MaxData = 3
-  MaxPGs = 2
-  ObjClasses = {"Points", "Grid2D"}
+  MaxPGs = 1
+  ObjClasses = {"Points"}
   Prims = {"float", "floatcmap", "int", "ref", "text"}
   ShareTypes = TRUE
   Deviations = {}
